@@ -247,19 +247,24 @@ CLAIMED['C10'] = dict(
 # rules added late in the build (rules/late.py, rules/shapes.py): one sentence per property, appended to the level text
 LATE = {
     'C01': "Added late: a loop over basis positions never reads colStatus(i)/rowStatus(i) with the position (R01.7).",
-    'C02': "Added late: test() and coTest() of the entering simplex handle the same nonbasic statuses (R02.7).",
-    'C03': "Added late: reduced-cost sign and lifted entries (R03.8-R03.10); no array re-sized twice in a row and each basis status array re-sized to a count of its own kind (R03.11).",
+    'C02': "Added late: test() and coTest() of the entering simplex handle the same nonbasic statuses (R02.7); the entry of the entering variable in a ray / Farkas vector carries the opposite sign of the multiplier of the update vector (R02.8).",
+    'C03': "Added late: reduced-cost sign and lifted entries (R03.8-R03.10); no array re-sized twice in a row and each basis status array re-sized to a count of its own kind (R03.11); _rangeTypeReal() never sees a value converted from a rational (R03.12); tau is compared with the feasibility tolerance by one operator where the auxiliary solution is accepted and where it is used (R03.13); the normalisation of the dual multipliers by the multiplier of the objective row consults the objective sense (R03.14).",
     'C04': "Added late: after reloading the LP into the solver the stored basis is loaded again (R04.7); SPxSolverBase::status() consults the basis status before reporting OPTIMAL (R04.8).",
     'C07': "Added late: areLPsInSync() reads through the unscaled accessors (R07.11); no rational reaches the floating-point LP through mpq_get_d (R07.12); sense and offset re-applied wherever an LP is cleared or created (R07.13).",
+    'C08': "Added late: a verdict UNBOUNDED / DUAL_INFEASIBLE of SPxMainSM is governed by a comparison that uses the dual feasibility tolerance (R08.12); no PostStep::execute() branches on the objective sense (R08.13); FixVariablePS consults the sign of the reduced cost (R08.14); stored m_strictLo / m_strictUp are read by execute() (R08.15).",
     'C09': "Added late: bounds and sides are scaled / unscaled only under a test against infinity (R09.9, R09.10); scaleExp grows with the side / bound arrays (R09.11); with persistent scaling off a scaled LP is unscaled before the solve (R09.12).",
-    'C10': "Added late: arrays indexed by l.startSize are re-allocated together (R10.5).",
-    'C11': "Added late: co-sized arrays (R11.6), fill-ins queued once (R11.7), a factorization whose status is not OK is discarded before computeBasisInverseRational() returns (R11.8).",
+    'C10': "Added late: arrays indexed by l.startSize are re-allocated together (R10.5); a forest* member function calls the forest* twin of every helper that has one (R10.6).",
+    'C11': "Added late: co-sized arrays (R11.6), fill-ins queued once (R11.7), a factorization whose status is not OK is discarded before computeBasisInverseRational() returns (R11.8), forest twins (R11.9), the cached factorization is cleared wherever an undo function of the exact solver cuts the basis back (R11.10).",
+    'C12': "Added late: every vec.add(colidx, ..) of the LP-format reader is governed by a look-up vec.pos(colidx) (R12.9); a GREATER_EQUAL arm that uses lhs(i) as a number handles the free row (R12.10).",
+    'C13': "Added late: no decision on a later character of the MPS indicator field alone (R13.15); MPSreadCols tests vec.pos(idx) before vec.add (R13.16); ratFromString() tests the denominator (R13.17); input files are opened through spxOpenInputFile(), never by constructing the throwing stream from a name (R13.18); MPS value fields are converted by the checked helper, never by atof() (R13.19); the LP-format reader counts names against rows (R13.20).",
+    'C14': "Added late: saveSettingsFile() writes real parameters with a precision that round-trips a double (R14.7); writeBasisFile() forwards to the solver only if the object has a basis (R14.8).",
+    'C15': "Added late: the typed setters skip an unchanged value only when init is false (R15.9); setSettings() does not overwrite the stored settings before calling the setters (R15.10); a setter arm that changes the stored LPs invalidates the solution (R15.11); a # that ends the value token starts a comment (R15.12); conversions consume the whole token and the type token is compared exactly (R15.13); no value is forwarded through a pointer that another parameter re-targets (R15.14); no == / != against realParam(INFTY) (R15.15).",
     'C16': "Added late: every terminal arm of _evaluateResult() clears the row objectives of the refined LP (R16.7); the undo functions of the exact solver subscript the solution vectors only under a condition that says a solution exists (R16.8).",
-    'C17': "Added late: an array-of-pointers member copied verbatim is re-bound elementwise by the copy operation of the owning class (R17.12); nothing SoPlexBase::operator= executes after copying status and solution reaches _invalidateSolution() (R17.13); the owned rational LP is released on every path to its re-allocation (R17.14).",
-    'C19': "Added late: compound assignment operators (R19.9), key/number inverse maps (R19.10), copying a set of empty vectors (R19.11), no clear() after num was overwritten (R19.12).",
-    'C20': "Added late: every undo of an LP extension of the exact solver re-dimensions the solution vectors of the extended kind on every path, because the getters behind SoPlex_get*Real copy the whole vector into the caller's array (R20.7).",
+    'C17': "Added late: an array-of-pointers member copied verbatim is re-bound elementwise by the copy operation of the owning class (R17.12); nothing SoPlexBase::operator= executes after copying status and solution reaches _invalidateSolution() (R17.13); the owned rational LP is released on every path to its re-allocation (R17.14); SLUFactor / SLUFactorRational::assign() re-dimension the temporary vectors they do not copy (R17.15).",
+    'C19': "Added late: compound assignment operators (R19.9), key/number inverse maps (R19.10), copying a set of empty vectors (R19.11), no clear() after num was overwritten (R19.12), a one-statement while loop steps the counter its guard tests (R19.13), has(DataKey) range-checks (R19.14), a loop filling a fresh block is not bounded by the old capacity alone (R19.15), loops over theitem are bounded by size() (R19.16), no bounds-asserting subscript to form an address for setMem() (R19.17), reMax() clamps against the size in effect (R19.18), filling members of SVectorBase set the size (R19.19), Array::insert at begin() + i (R19.20).",
+    'C20': "Added late: every undo of an LP extension of the exact solver re-dimensions the solution vectors of the extended kind on every path, because the getters behind SoPlex_get*Real copy the whole vector into the caller's array (R20.7); memory from new held in a local pointer of a C function is deleted on every path unless returned (R20.8).",
 }
-SHAPES = " Generic shape rules S1-S11 (rules/shapes.py: infinity comparisons, position-or-minus-one tests, loop bounds, sparse position/index, mirror chains and mirror sibling functions, sense ternaries, comparators, row/column loop domains, argument selection) are reported under the property that owns the function."
+SHAPES = " Generic shape rules S1-S12 (rules/shapes.py: infinity comparisons, position-or-minus-one tests, loop bounds, sparse position/index, mirror chains and mirror sibling functions, sense ternaries, comparators, row/column loop domains, argument selection, mirror switch arms) are reported under the property that owns the function."
 
 NA = {
 }
